@@ -248,7 +248,10 @@ fn eval_primary_expr(
         expr::PrimaryExpr::Function(func) => eval_func_expr(func, node, context),
         expr::PrimaryExpr::Literal(literal) => Ok(literal.to_string().as_value()),
         expr::PrimaryExpr::Number(number) => Ok(number.parse::<f64>().unwrap().as_value()),
-        expr::PrimaryExpr::Variable(_) => unimplemented!("Not support `VariableReference`."),
+        // no variable bindings can be supplied: every reference is unbound.
+        expr::PrimaryExpr::Variable(name) => {
+            Err(error::Error::NotFoundVariable(format!("{:?}", name)))
+        }
     }
 }
 
